@@ -53,7 +53,7 @@ def cfgOfTables : Cfg :=
 /-- the tree under test is wired as the property demands -/
 theorem wiring_is_fixed : cfgOfTables = Cfg.fixed := by
   unfold cfgOfTables
-  rw [Facts.dryWiring_calls_ok, Facts.dryWiring_guards_ok]
+  rw [Facts.dryWiring_calls_ok]
   decide
 
 /-! ## The tree as found (`ee97f41`) violates the property in both places -/
